@@ -823,6 +823,7 @@ func runC10(ctx *Ctx) {
 		}
 	}
 	scope = append(scope, fmt.Sprintf("callback product: 5 Type behaviours x 8 Impl behaviours x 3 RefineResult behaviours x (no parameter; one parameter: 16 flag combinations x 7 classes; sampled positional+variadic) = %d cases", cb))
+	scope = append(scope, "Proxy / Params / VarParam / WithNewDescriptions (every description count 0..len(params)+2) on every 5th of the cases that also run ReturnTypeForValues / ReturnType")
 	ctx.res.Exhaustive = true
 	ctx.res.Scope = strings.Join(scope, "; ")
 
